@@ -330,3 +330,28 @@ func (m *Model) RecursiveConstructs(typ, rel string) int {
 	visit(typ, rel)
 	return n
 }
+
+// IsTwin reports whether r0 is one of the twin-branch shapes (two operator nodes reaching the same leaf).
+func (m *Model) IsTwin() bool {
+	d := m.Types["doc"]["r0"]
+	if d == nil || d.Rewrite == nil {
+		return false
+	}
+	e := d.Rewrite
+	bin := func(x *Expr) bool { return x != nil && (x.K == KUnion || x.K == KInter || x.K == KDiff) }
+	return bin(e) && bin(e.A) && bin(e.B) && e.A.A != nil && e.B.A != nil && e.A.A.String() == e.B.A.String()
+}
+
+// WithTwins appends the twin-branch models of all that are missing from sel.
+func WithTwins(sel, all []*Model) []*Model {
+	have := map[*Model]bool{}
+	for _, m := range sel {
+		have[m] = true
+	}
+	for _, m := range all {
+		if m.IsTwin() && !have[m] {
+			sel = append(sel, m)
+		}
+	}
+	return sel
+}
